@@ -352,6 +352,15 @@ func runCheck(cfg checkCfg) int {
 				}
 			}
 		}
+		if (rr == nil || !rr.Confirmed) && !cfg.NoReplay {
+			// no model could be replayed: a scenario driver (a test of the real code that passes as
+			// long as the property holds) needs none
+			if sr := scenarioReplay(eng, o.failing[0], cfg, tmp); sr != nil {
+				if sr.Confirmed || rr == nil {
+					rr = sr
+				}
+			}
+		}
 		out.Violations++
 		reason := fmt.Sprintf("solver result %s (%s)", vc.Result, vc.Solver)
 		p := writeReplayFile(replayDir, cfg.Prop, name, vc, rr, reason)
